@@ -1,0 +1,19 @@
+//go:build verif
+
+package panos
+
+// Contracts for the deductive checker in /verif (comment-only file).
+
+// API requests that only read: candidate configuration and HA state.
+//vc:spec func readOnlyPanCmd(c string) bool =
+//vc:   c == "type=config&action=get&xpath=/config/devices" ||
+//vc:   c == "type=op&cmd=<show><high-availability><state/></high-availability></show>"
+
+//vc:only[C11] (*net/http.Client).Get in (*State).httpGet
+//vc:only[C11] (*State).httpGet in (*State).getAPIKey, (*State).httpPrefixGetLog
+
+//vc:func (*State).httpPrefixGetLog
+//vc:  requires[C11] !isCompareRun || readOnlyPanCmd(uri)
+
+//vc:func (*State).ApplyCommands
+//vc:  requires[C11] !isCompareRun
